@@ -74,11 +74,13 @@ def main(tier):
                 pos = max(pos, hi + 1)
         run.ob("coverage", "%s: pieces cover every live stamp 0..=32767" % prof, pos > I16_MAX, key="coverage|live stamps not covered up to %d" % pos, detail=covered)
     # ---- a freshly issued id reads as not removed: it carries the slot's current stamp
-    alloc = e2props.load(run, profiles, ["new_node"])
+    prog_ = facts.load("dev", None)
+    own_alloc = rules.APPEND_VALUE in rules.alloc_gates(prog_)
+    alloc = e2props.load(run, profiles, ["new_node"] + (["append_alloc"] if own_alloc else []))
     for (prof, entry), recs in sorted(alloc.items()):
         for rec in recs:
             if rec["exit"] == "return" and rec.get("returned") is not None:
-                run.ob("issued", "new_node/%s: is_removed(new id) is false at issue time (id.stamp == slot.stamp >= 0)" % prof,
+                run.ob("issued", "%s/%s: is_removed(new id) is false at issue time (id.stamp == slot.stamp >= 0)" % (entry, prof),
                        rec.get("returned_id_is_current") is True and rec["returned_stamp_range"][0] >= 0,
                        key="issued|new_node hands out an id that already reads as removed", detail={k: rec.get(k) for k in ("value", "returned_stamp_range", "returned_id_is_current", "shape")},
                        nontrivial=("issued", rec.get("shape")))
@@ -103,26 +105,30 @@ def main(tier):
     roles = roles or {}
     run.extra["stamp_roles"] = roles
     FREE, NEW = rules.free_node_key(prog), "crate::arena::Arena<T>::new_node"
+    ALLOC = rules.alloc_gates(prog, idx)          # {new_node}, plus append_value when it allocates through a path of its own (C07 then decides that path as well)
     sites = [s for s in rules.field_sites(prog, STAMP, "0") if s["kind"] in ("write", "mutref")]
     fns = sorted({s["fn"] for s in sites if not prog.fns[s["fn"]].get("impl_derived")})
-    extra = [f for f in fns if f not in (roles.get("removed"), roles.get("reuse"))]
-    run.ob("writers", "NodeStamp.0 is written only in the removal and reuse transitions (%s, %s): %s" % (roles.get("removed"), roles.get("reuse"), fns), not extra and len(fns) == 2,
-           key="writers|NodeStamp.0 written in %s" % ",".join(extra), detail=fns, nontrivial="w0", sample=True)
+    # a transition produces the new counter value either by writing NodeStamp.0 in place or by building a new NodeStamp (by-value form)
+    saggs_all = sorted({a["fn"] for a in rules.aggregates(prog, STAMP) if not prog.fns[a["fn"]].get("impl_derived")})
+    producers = sorted(set(fns) | set(saggs_all))
+    extra = [f for f in producers if f not in (roles.get("removed"), roles.get("reuse"))]
+    run.ob("writers", "the generation counter is produced (NodeStamp.0 written or a NodeStamp built) only in the removal and reuse transitions (%s, %s): %s" % (roles.get("removed"), roles.get("reuse"), producers),
+           not extra and len(producers) == 2, key="writers|NodeStamp.0 written in %s" % ",".join(extra), detail=producers, nontrivial="w0", sample=True)
     nsites = [s for s in rules.field_sites(prog, "crate::node::Node", "stamp") if s["kind"] in ("write", "mutref")]
     nf = sorted({s["fn"] for s in nsites if not prog.fns[s["fn"]].get("impl_derived")})
-    badn = [f for f in nf if not idx.gated(f, {FREE, NEW})]
+    badn = [f for f in nf if not idx.gated(f, {FREE} | ALLOC)]
     run.ob("writers", "Node.stamp is written/borrowed mutably only below free_node / new_node: %s" % nf, not badn,
-           key="writers|Node.stamp written in %s" % ",".join(badn), detail=[(b, idx.ungated_path(b, {FREE, NEW})) for b in badn] or nf, nontrivial="w1")
+           key="writers|Node.stamp written in %s" % ",".join(badn), detail=[(b, idx.ungated_path(b, {FREE} | ALLOC)) for b in badn] or nf, nontrivial="w1")
     aggs = sorted({a["fn"] for a in rules.aggregates(prog, "crate::node::Node") if not prog.fns[a["fn"]].get("impl_derived")})
-    bada = [f for f in aggs if not idx.gated(f, {NEW})]
+    bada = [f for f in aggs if not idx.gated(f, ALLOC)]
     run.ob("writers", "Node values are built only below new_node: %s" % aggs, not bada and len(aggs) >= 1, key="writers|Node built outside new_node's helpers: %s" % ",".join(bada), detail=aggs)
-    saggs = [a["fn"] for a in rules.aggregates(prog, STAMP) if not prog.fns[a["fn"]].get("impl_derived")]
-    run.ob("writers", "NodeStamp values are built only by derived Default/Clone: %s" % saggs, not saggs, key="writers|NodeStamp built in %s" % ",".join(saggs), detail=saggs)
+    saggs = [a for a in saggs_all if a not in (roles.get("removed"), roles.get("reuse"))]
+    run.ob("writers", "NodeStamp values are built only by derived Default/Clone and the two transitions: %s" % saggs_all, not saggs, key="writers|NodeStamp built in %s" % ",".join(saggs), detail=saggs_all)
     for role, gate, other in (("removed", FREE, NEW), ("reuse", NEW, FREE)):
         k = roles.get(role)
         if not k:
             continue
-        ok = idx.gated(k, {gate}) and len(idx.users(k)) > 0
+        ok = idx.gated(k, ALLOC if gate == NEW else {gate}) and len(idx.users(k)) > 0
         run.ob("callers", "the %s transition (%s) is reachable only through %s" % (role, k.split("::", 1)[1], gate.split("::", 1)[1]), ok,
                key="callers|%s transition of the stamp reachable outside %s" % (role, gate.rsplit("::", 1)[-1]), detail=idx.ungated_path(k, {gate}), nontrivial=("callers", role))
     callers = sorted({k for (k, bi, t) in idx.callers.get(FREE, [])})
@@ -132,7 +138,7 @@ def main(tier):
     strayf = [c for c in callers if not idx.gated(c, REMOVERS)]
     run.ob("callers", "free_node is called only below NodeId::remove / NodeId::remove_subtree: %s" % callers, bool(callers) and not strayf,
            key="callers|free_node called from %s" % (",".join(strayf) or "nowhere"), detail=callers, nontrivial=("callers", "free_node"))
-    run.floor("stamp write sites found", len(sites) + len(nsites), 4)
+    run.floor("stamp write sites found", len(sites) + len(nsites) + len(saggs_all), 4)
     run.extra["written_argument"] = ("Per slot: the first id carries stamp 0 (Default in Node::new). A slot's stamp is changed only by free_node (live s -> f(s) < 0) and by "
                                      "Node::reuse on a free-list member (f(s) -> g(f(s)) > s by O2). So the live stamps of a slot are strictly increasing and removed stamps are "
                                      "negative: no (index, stamp) pair is issued twice between clears, and once an id with stamp s is removed the slot's stamp is either negative or "
